@@ -98,6 +98,9 @@ PROPS["C06"] = dict(
 
 def _corrupt_map(e):
     o = e["out"]
+    if e["op"] == "bigline":
+        o["flags2"] = o["flags2"][1:]
+        return True
     if e["op"] == "encode_fail":
         o["res"] = "ok"
         return e["args"]["at"] < e["args"]["len"]
